@@ -30,6 +30,11 @@ CHECKS = {
     technique="TLA+ spec RpycLedger (two peers, request/reply/exception frames, re-entrant serve with unwinding) model-checked by TLC; transition-cover and random request histories executed on two real Connections with frame-by-frame delivery, compared with the TLC state and trace-validated by TLC; frame-level ledger oracle over all traffic",
     text="TLC exhausts request streams of 3 top-level requests over 7 outcome classes (value, reference, raises, undecodable arguments, unknown handler, unencodable result, nested callback), sync and async, in both directions, for exactly-one-response, routing by sequence number, kind, completeness and connection survival; the histories are executed on a real pair and every frame crossing the transport is accounted for",
     note="single-threaded sides (C13 covers threads); bounded histories; exception payloads that are themselves unencodable (an int beyond the digit limit inside exception args) are not generated"),
+ "C11": dict(
+    spec="RpycTeardown", design="5/C11", level="model_checking",
+    technique="TLA+ spec RpycTeardown (connection life cycle at public-call granularity with read/write faults) model-checked by TLC; fault enumeration on the real Connection+Channel+SocketStream stack over scripted sockets (failure at every recv/send call, fragmented runs for mid-packet positions, all close orders) with every run's event log trace-validated by TLC and judged at each public-call boundary",
+    text="TLC exhausts issue/serve/close/wait with socket read and write faults at any point and all orders of the two close() calls for hook-at-most-once, closed-implies-clean, no invented value, no hang; the same obligations are checked on the real stack for every single transport call position of four workloads (sync, async, nested callbacks, references both ways), and the recorded event logs are accepted by the spec",
+    note="one fault per run; poll() itself is not failed; sides single-threaded and serving while idle; a reply-send failure in a bare serve() may leave closed false until the next serve (reading note in DESIGN.md)"),
 }
 NA = {}
 
